@@ -438,7 +438,7 @@ impl<'a> Interp<'a> {
                     if sec == 0 {
                         let mut c = pp.into_iter_question()?;
                         let mut o = CursorObs::default();
-                        o.result = c.set_raw_name(&raw).map_err(|e| e.to_string());
+                        o.result = c.set_raw_name(&raw).map_err(estr);
                         o.tombstone = c.is_tombstone();
                         if o.result.is_ok() {
                             o.name = Some(c.name());
@@ -449,7 +449,7 @@ impl<'a> Interp<'a> {
                     } else {
                         with_rr(pp, sec, k, false, |mut c| {
                             let mut o = CursorObs::default();
-                            o.result = c.set_raw_name(&raw).map_err(|e| e.to_string());
+                            o.result = c.set_raw_name(&raw).map_err(estr);
                             o.tombstone = c.is_tombstone();
                             if o.result.is_ok() {
                                 // keep using the same cursor: reads, then optionally a TTL write
@@ -543,7 +543,7 @@ impl<'a> Interp<'a> {
                     }
                     (Err(e), true) => {
                         // growing beyond 65535 bytes is a legitimate failure
-                        if e.contains("too large") {
+                        if e.starts_with("PacketTooLarge|") {
                             failed = true;
                             self.st.class("fail:set_raw_name-too-large");
                         } else {
@@ -579,7 +579,7 @@ impl<'a> Interp<'a> {
                         let mut o = CursorObs::default();
                         o.result = c.delete().map_err(|e| e.to_string());
                         if twice {
-                            o.second = Some(if then_set_name { c.set_raw_name(&[1, b'z', 0]).map_err(|e| e.to_string()) } else { c.delete().map_err(|e| e.to_string()) });
+                            o.second = Some(if then_set_name { c.set_raw_name(&[1, b'z', 0]).map_err(estr) } else { c.delete().map_err(estr) });
                         }
                         o.tombstone = c.is_tombstone();
                         Some(o)
@@ -588,7 +588,7 @@ impl<'a> Interp<'a> {
                             let mut o = CursorObs::default();
                             o.result = c.delete().map_err(|e| e.to_string());
                             if twice {
-                                o.second = Some(if then_set_name { c.set_raw_name(&[1, b'z', 0]).map_err(|e| e.to_string()) } else { c.delete().map_err(|e| e.to_string()) });
+                                o.second = Some(if then_set_name { c.set_raw_name(&[1, b'z', 0]).map_err(estr) } else { c.delete().map_err(estr) });
                             }
                             o.tombstone = c.is_tombstone();
                             o
@@ -624,7 +624,7 @@ impl<'a> Interp<'a> {
                         }
                         Err(e) => {
                             if self.which == Which::C10 {
-                                ensure!(e == "Void record", "C10 tombstone-error-kind", "expected VoidRecord, got {:?}; {}", e, self.ctx());
+                                ensure!(e.starts_with("VoidRecord|"), "C10 tombstone-error-kind", "expected VoidRecord, got {:?}; {}", e, self.ctx());
                             }
                             self.st.class("fail:op-on-tombstone");
                             self.note_failure();
@@ -667,7 +667,7 @@ impl<'a> Interp<'a> {
                         Err(e) => fail!(format!("{} new_question-fails", id), "{:?} for {:?}", e.to_string(), text),
                     };
                     let pp = &mut self.pp;
-                    let r = catch(|| pp.insert_rr(Section::Question, rr).map_err(|e| e.to_string()));
+                    let r = catch(|| pp.insert_rr(Section::Question, rr).map_err(estr));
                     let r = match r {
                         Err(pm) => {
                             if has_q && self.which != Which::C10 {
@@ -689,7 +689,7 @@ impl<'a> Interp<'a> {
                         }
                         (Ok(()), true) => fail!("C10 second-question-accepted", "{}", self.ctx()),
                         (Err(e), false) => {
-                            if e.contains("too large") {
+                            if e.starts_with("PacketTooLarge|") {
                                 failed = true;
                             } else {
                                 fail!(format!("{} insert-question-fails", id), "{:?} {}", e, short(&self.ctx()));
@@ -719,10 +719,10 @@ impl<'a> Interp<'a> {
                     let pp = &mut self.pp;
                     let r = catch(|| {
                         if via_rr {
-                            let rr = dgen::RR::from_string(&text).map_err(|e| e.to_string())?;
-                            pp.insert_rr(section_of(sec), rr).map_err(|e| e.to_string())
+                            let rr = dgen::RR::from_string(&text).map_err(estr)?;
+                            pp.insert_rr(section_of(sec), rr).map_err(estr)
                         } else {
-                            pp.insert_rr_from_string(section_of(sec), &text).map_err(|e| e.to_string())
+                            pp.insert_rr_from_string(section_of(sec), &text).map_err(estr)
                         }
                     });
                     let r = match r {
@@ -761,7 +761,7 @@ impl<'a> Interp<'a> {
                             if expect_parse_ok {
                                 if too_large {
                                     if self.which == Which::C10 {
-                                        ensure!(e == "Packet too large", "C10 size-limit-error-kind", "expected PacketTooLarge, got {:?}; {}", e, self.ctx());
+                                        ensure!(e.starts_with("PacketTooLarge|"), "C10 size-limit-error-kind", "expected PacketTooLarge, got {:?}; {}", e, self.ctx());
                                     }
                                     self.st.class("fail:packet-too-large");
                                     if before_bytes.len() > 8192 {
